@@ -14,13 +14,65 @@ RES = tt.Sentinel("RES")
 EXC = tt.Sentinel("EXC")
 
 
-def lifecycle_domain(ctx, cls=None):
+def init_constants(ctx, cls):
+    """attributes that the constructors along the MRO set to a constant: the state of a fresh object"""
+    out = {}
+    for c in reversed(cls.mro):
+        f = c.methods.get('__init__')
+        if f is None:
+            continue
+        for n in walk_local(f.node):
+            if isinstance(n, ast.Assign) and len(n.targets) == 1 and isinstance(n.targets[0], ast.Attribute) \
+                    and isinstance(n.targets[0].value, ast.Name) and n.targets[0].value.id == 'self' \
+                    and isinstance(n.value, ast.Constant):
+                out[n.targets[0].attr] = n.value.value
+    return out
+
+
+def lifecycle_domain(ctx, cls=None, members=False):
     r = ctx.roles
     reg, run = r.registry_attr, r.running_attr
     fin = tt.finished_constant()
+    base = init_constants(ctx, cls or r.jobbase)
+    for k in (reg, run, 'forever', 'critical', 'jobs'):
+        base.pop(k, None)
 
-    def job(task, running):
-        return tt.Obj('job', **{reg: task, run: running, '__class__': cls or r.jobbase})
+    def job(task, running, klass=None, **more):
+        a = dict(base)
+        a.update({reg: task, run: running, '__class__': klass or cls or r.jobbase, 'forever': False,
+                  'critical': False})
+        a.update(more)
+        return tt.Obj('job', **a)
+    if members:
+        # a scheduler used as a job: its own task, and its members (what the nested run is doing)
+        def m_idle():
+            return [job(None, False, r.jobbase)]
+
+        def m_done():
+            return [job(tt.task(fin, None, RES), True, r.jobbase)]
+
+        def m_busy():
+            return [job(tt.task(fin, None, RES), True, r.jobbase), job(tt.task('PENDING'), True, r.jobbase)]
+
+        def m_cancelled():
+            return [job(tt.task(fin, None, RES), True, r.jobbase), job(tt.task('CANCELLED'), True, r.jobbase)]
+        return [
+            ('idle (never scheduled), no member', job(None, False, jobs=[])),
+            ('idle (never scheduled), members idle', job(None, False, jobs=m_idle())),
+            ('scheduled, waiting for a window slot, members idle', job(tt.task('PENDING'), False, jobs=m_idle())),
+            ('running, no member', job(tt.task('PENDING'), True, jobs=[])),
+            ('running, a member still running', job(tt.task('PENDING'), True, jobs=m_busy())),
+            ('running, every member done (the nested run is shutting down)',
+             job(tt.task('PENDING'), True, jobs=m_done())),
+            ('finished by returning, no member', job(tt.task(fin, None, RES), True, jobs=[])),
+            ('finished by returning, every member done', job(tt.task(fin, None, RES), True, jobs=m_done())),
+            ('finished by returning, a member cancelled (aborted run)',
+             job(tt.task(fin, None, RES), True, jobs=m_cancelled())),
+            ('finished by raising, a member cancelled (aborted run)',
+             job(tt.task(fin, EXC, None), True, jobs=m_cancelled())),
+            ('cancelled while queued, members idle', job(tt.task('CANCELLED'), False, jobs=m_idle())),
+            ('cancelled while running, a member cancelled', job(tt.task('CANCELLED'), True, jobs=m_cancelled())),
+        ], fin
     return [
         ('idle (never scheduled)', job(None, False)),
         ('scheduled, waiting for a window slot', job(tt.task('PENDING'), False)),
@@ -35,8 +87,8 @@ def lifecycle_domain(ctx, cls=None):
 EXPECT = {
     'is_idle':      lambda lbl: lbl.startswith('idle'),
     'is_scheduled': lambda lbl: not lbl.startswith('idle'),
-    'is_running':   lambda lbl: lbl in ('running', 'finished by returning', 'finished by raising',
-                                        'cancelled while running'),
+    'is_running':   lambda lbl: lbl.split(',')[0] in ('running', 'finished by returning', 'finished by raising',
+                                                      'cancelled while running'),
     'is_done':      lambda lbl: lbl.startswith('finished'),
 }
 
@@ -59,7 +111,7 @@ def _bool_tables(ctx, rep, rule, names, classes=None):
     classes = classes or [r.jobbase] + r.nestable
     n = 0
     for cls in classes:
-        dom, fin = lifecycle_domain(ctx, cls)
+        dom, fin = lifecycle_domain(ctx, cls, members=cls in r.nestable)
         for name in names:
             f = ctx.prog.supplier(cls, name)
             if f is None:
@@ -88,9 +140,19 @@ def lifecycle_tables(ctx, rep, rule):
     """R14.1: the six inspection methods over the 7-point life-cycle domain"""
     r = ctx.roles
     _bool_tables(ctx, rep, rule, ['is_idle', 'is_scheduled', 'is_running', 'is_done'])
+    outcome_tables(ctx, rep, rule)
+
+
+def outcome_tables(ctx, rep, rule, names=('raised_exception', 'result')):
+    """raised_exception() / result() over the life-cycle domain (for a nested scheduler: of its own task,
+    whatever its members did)"""
+    r = ctx.roles
     classes = [r.jobbase] + r.nestable
     for cls in classes:
-        dom, fin = lifecycle_domain(ctx, cls)
+        dom, fin = lifecycle_domain(ctx, cls, members=cls in r.nestable)
+        dom = [(lbl, o) for lbl, o in dom]
+        if 'raised_exception' not in names:
+            continue
         # raised_exception: the exception object itself on finished-by-raising, None elsewhere
         f = ctx.prog.supplier(cls, 'raised_exception')
         ev = evaluator(ctx, cls)
@@ -102,13 +164,15 @@ def lifecycle_tables(ctx, rep, rule):
         if tab:
             for lbl, _ in dom:
                 got = tab[lbl]
-                want = EXC if lbl == 'finished by raising' else None
+                want = EXC if lbl.startswith('finished by raising') else None
                 ok = got[0] == 'ret' and got[1] is want
                 rep.check(ok, rule, "%s.raised_exception() on a job %s" % (cls.name, lbl), f.qualname,
                           "raised_exception() gives %r for a job that is %s" % (
                               got[1] if got[0] == 'ret' else 'raise ' + got[1], lbl),
                           "raised_exception() must be %s for a job that is %s"
                           % ("the exception object" if want is EXC else "None", lbl))
+        if 'result' not in names:
+            continue
         f = ctx.prog.supplier(cls, 'result')
         ev = evaluator(ctx, cls)
         try:
@@ -119,10 +183,10 @@ def lifecycle_tables(ctx, rep, rule):
         if tab:
             for lbl, _ in dom:
                 got = tab[lbl]
-                if lbl == 'finished by returning':
+                if lbl.startswith('finished by returning'):
                     ok = got[0] == 'ret' and got[1] is RES
                     want = "the returned object"
-                elif lbl == 'finished by raising':
+                elif lbl.startswith('finished by raising'):
                     ok = got[0] == 'raise' or (got[0] == 'ret' and got[1] is None)
                     want = "None or an error"
                 else:
@@ -274,3 +338,64 @@ def _called_before_first_start(ctx, f):
     an, ip, out = ctx.run()
     evs = [e for e in an.events('STORE') if e.fr.func is f]
     return bool(evs) and all(e.data['nstart'] == 0 for e in evs)
+
+
+def done_depends_on_registry_only(ctx, rep, rule):
+    """`done` speaks about this run (with R01.5): of the job's mutable state, is_done() reads nothing but the
+    task registry, which is reset before the first start. Any other attribute it reads (through the sibling
+    predicates it calls) is written by the constructor only, or is reset wherever the registry is."""
+    r = ctx.roles
+    p = ctx.prog
+    reg = r.registry_attr
+    # writers of each attribute, package-wide
+    writers = {}
+    for f in p.all_functions():
+        for n in walk_local(f.node):
+            tg = []
+            if isinstance(n, ast.Assign):
+                tg = n.targets
+            elif isinstance(n, (ast.AugAssign, ast.AnnAssign)):
+                tg = [n.target]
+            for t in tg:
+                if isinstance(t, ast.Attribute):
+                    writers.setdefault(t.attr, []).append((f, n))
+            if isinstance(n, ast.Call) and dotted(n.func) == 'setattr' and len(n.args) >= 2 \
+                    and isinstance(n.args[1], ast.Constant):
+                writers.setdefault(n.args[1].value, []).append((f, n))
+    resetters = {f.qualname for f, n in writers.get(reg, []) if isinstance(n, ast.Assign)
+                 and isinstance(n.value, ast.Constant) and n.value.value is None and f.name != '__init__'}
+    nchk = 0
+    for cls in [r.jobbase] + r.nestable:
+        f = p.supplier(cls, 'is_done')
+        if f is None:
+            continue
+        seen, stack, reads = set(), [f], {}
+        while stack:
+            g = stack.pop()
+            if g.qualname in seen:
+                continue
+            seen.add(g.qualname)
+            for n in walk_local(g.node):
+                if isinstance(n, ast.Attribute) and isinstance(n.value, ast.Name) and n.value.id == 'self':
+                    par = getattr(n, '_parent', None)
+                    if isinstance(par, ast.Call) and par.func is n:
+                        h = p.supplier(cls, n.attr)
+                        if h is not None:
+                            stack.append(h)
+                        continue
+                    reads.setdefault(n.attr, (g, n))
+        for attr, (g, n) in sorted(reads.items()):
+            if attr == reg:
+                continue
+            ws = [(wf, wn) for wf, wn in writers.get(attr, []) if wf.name != '__init__']
+            if not ws:
+                continue
+            nchk += 1
+            reset_too = any(wf.qualname in resetters for wf, wn in ws)
+            rep.check(reset_too, rule, "%s.is_done() reads `%s` (%s:%d)" % (cls.name, attr, g.module.relpath, n.lineno),
+                      f.qualname, "`self.%s` is written by %s and is not reset where the task registry is (%s)"
+                      % (attr, sorted({wf.qualname for wf, _ in ws}), sorted(resetters) or "nowhere"),
+                      "is_done() keeps the answer of a previous run: when the scheduler is run again, requirements "
+                      "report done at once and their successors start before them")
+    rep.ok(rule, "is_done() of %d classes reads only the registry and constructor-set state (%d other attributes "
+                 "checked)" % (len([r.jobbase] + r.nestable), nchk))
